@@ -86,6 +86,25 @@ def matrix_tensor(M, N):
     return full[:TSZ[N]]
 
 
+def clear_denominators(vals):
+    """(numerators as Rat with denominator 1, common denominator as Rat): the
+    common denominator is the product of the distinct denominators."""
+    dens = {}
+    for v in vals:
+        dens.setdefault(v.d.key(), v.d)
+    D = P.Poly.const(1)
+    for d in dens.values():
+        D = D * d
+    nums = []
+    for v in vals:
+        f = P.Poly.const(1)
+        for k, d in dens.items():
+            if k != v.d.key():
+                f = f * d
+        nums.append(Rat(v.n * f))
+    return nums, Rat(D)
+
+
 def eq_list(a, b):
     return len(a) == len(b) and all(x.equals(y) for x, y in zip(a, b))
 
@@ -131,7 +150,11 @@ def run_shim(mod, fname, inputs, out_sizes, max_paths=16, scalars=()):
                     vals.append(None)
                 else:
                     v = c[0]
-                    if isinstance(v, tuple) and v and v[0] == "zero8":
+                    if (isinstance(v, str) and v == "zero8") or (isinstance(v, tuple) and v and v[0] == "zero8"):
+                        v = Rat(0)
+                    if isinstance(v, int):
+                        if v != 0:
+                            raise Unsupported("integer bit pattern %d stored as a float" % v)
                         v = Rat(0)
                     vals.append(v)
             outs.append(vals)
